@@ -224,9 +224,11 @@ Definition nargs (st : state) (l : list arg) : list iface := flat_map (narg st) 
 
 Definition step (ev : bool) (g : igraph) (st : state) (o : op) : state :=
   match o with
-  | NewClass bs m bi =>
+  | NewClass bs m bi old =>
       let n := length (classes st) in
-      mkS (classes st ++ [mkC (dedup (filter (fun b => Nat.ltb b n) bs)) [] true [] m bi]) (insts st) (cache st)
+      mkS (classes st ++ [mkC (dedup (filter (fun b => Nat.ltb b n) bs))
+                              (match old with Some l => l | None => [] end)
+                              (match old with Some _ => false | None => true end) [] m bi]) (insts st) (cache st)
   | NewInstance c =>
       if Nat.ltb c (length (classes st))
       then mkS (classes st) (insts st ++ [mkI c true None]) (cache st)
